@@ -50,7 +50,7 @@ check("C28",
     quick=tier(1500, 35), thorough=tier(60000, 900, shrink_s=120),
     technique="deterministic whole-overlay simulation (real nodes, simulated network/clock/tun, seeded faults and operator) with the hostmap invariant evaluated on every node after every event",
     rule="one run = a 2-4 node overlay (static or lighthouse discovery, multi-address peers, both curves) living 20-60 s (thorough: up to 230 s) of simulated time under drop/dup/reorder/delay/partition/stall/sendto faults, rehandshakes, closes, restarts, restarts with a re-issued certificate sharing only some addresses, direct deletes and promotions (including promotion right after deletion); distinct = distinct abstract trace hash; non-trivial = some address held >= 3 simultaneous tunnels",
-    level_text="Seeded search over tunnel add/remove/promote/relay histories produced by real handshakes and teardown paths on real nodes; after every simulator event every node's Hosts/moreHosts/Indexes/RemoteIndexes/Relays are checked against the statement (primary heads its list, <=5 distinct live owners, everything reachable is live, removed tunnels unreachable forever, DeleteHostInfo's reported value equals ground truth computed before the call). Evidence, not proof. Plus engine B node-level interleavings (scenario C28.gosched): after a tape-drawn single-threaded prelude on a fault-free pair (pending handshake with queued packets / reply in flight / crossing handshakes / established), the roles of each node (udp reader delivering the held datagrams, tun reader sending marker packets, handshake timer, connection-manager tick, a control call) run as real goroutines parked at every lock acquisition of HostMap / HandshakeManager / per-handshake / LightHouse / RemoteList / RelayState / conntrack mutexes (verifRWMutex, tag verif) and released one at a time from the tape; then the pair settles for 15 s. the C28 invariant is evaluated on both nodes after the interleaved phase and after every event of the settle phase.",
+    level_text="Seeded search over tunnel add/remove/promote/relay histories produced by real handshakes and teardown paths on real nodes; after every simulator event every node's Hosts/moreHosts/Indexes/RemoteIndexes/Relays are checked against the statement (primary heads its list, <=5 distinct live owners, everything reachable is live, removed tunnels unreachable forever, DeleteHostInfo's reported value equals ground truth computed before the call). Evidence, not proof. Plus engine B node-level interleavings (scenario C28.gosched): after a tape-drawn single-threaded prelude on a fault-free pair (pending handshake with queued packets / reply in flight / crossing handshakes / established), the roles of each node (udp reader delivering the held datagrams — in half of the runs two reader routines per node working concurrently, the second possibly on a duplicate of a datagram the first is handling —, tun reader sending marker packets, handshake timer, connection-manager tick, a control call) run as real goroutines parked at every lock acquisition of HostMap / HandshakeManager / per-handshake / LightHouse / RemoteList / RelayState / conntrack mutexes (verifRWMutex, tag verif) and released one at a time from the tape; then the pair settles for 15 s. the C28 invariant is evaluated on both nodes after the interleaved phase and after every event of the settle phase.",
     level_note="Trusted: the harness wiring that mirrors Main (same constructors and order, no goroutines), the simulated socket/tun, and the invariant checker. Goroutine interleavings inside one node are not explored by this engine (single driver).",
     real=["HostMap, HandshakeManager, handshake.Machine, connectionManager, LightHouse, relayManager, Interface packet paths, Firewall, PKI, config reload (all real, wired like Main)"],
     stub=["UDP socket (simConn)", "tun device (simTun)", "goroutine loop shells (driver calls the loop bodies)", "wall clock (synctest bubble)", "crypto/rand (cryptotest seeded)"],
@@ -76,8 +76,8 @@ def engine_a(pid, **kw):
 engine_a("C29",
     scenarios=["C29.mesh", "C29.gosched"], scenario_weight={"C29.gosched": 2},
     technique="deterministic whole-overlay simulation with the tunnel-index random source squeezed to 3-6 bits (collision/zero/retry branches constantly taken); index-uniqueness invariant after every event",
-    rule="one run = a 3-5 node overlay (lighthouse, relay topology with blocked direct paths) for 15-45 s (thorough: up to 150 s) with index draws limited to 3-6 bits incl. zero, rehandshakes, closes, restarts, stalls, partitions; distinct = distinct abstract trace hash; non-trivial = index draws exceeded 3x the index space and a zero was drawn",
-    level_text="Seeded search over handshake/teardown/relay histories with a tiny index space: after every event every node's pending and established index maps and relay index map are checked (non-zero, one owner per index, one index per tunnel, no index shared between a pending and an established tunnel, an index or remote-index entry disappears only with its owner). Evidence, not proof. Goroutine-level races of the allocation paths are the engine-B part (not in this check). Plus engine B node-level interleavings (scenario C29.gosched): after a tape-drawn single-threaded prelude on a fault-free pair (pending handshake with queued packets / reply in flight / crossing handshakes / established), the roles of each node (udp reader delivering the held datagrams, tun reader sending marker packets, handshake timer, connection-manager tick, a control call) run as real goroutines parked at every lock acquisition of HostMap / HandshakeManager / per-handshake / LightHouse / RemoteList / RelayState / conntrack mutexes (verifRWMutex, tag verif) and released one at a time from the tape; then the pair settles for 15 s. index space squeezed to 3-6 bits; the C29 invariant is evaluated on both nodes after the interleaved phase and after every event of the settle phase.",
+    rule="one run = a 3-5 node overlay (lighthouse, relay topology with blocked direct paths) for 15-45 s (thorough: up to 150 s) with index draws limited to 3-6 bits incl. zero (engine B scenario: 2-6 bits, in half of the runs an echoing source that repeats the previous value in a third of the draws), rehandshakes, closes, restarts, stalls, partitions; distinct = distinct abstract trace hash; non-trivial = index draws exceeded 3x the index space and a zero was drawn",
+    level_text="Seeded search over handshake/teardown/relay histories with a tiny index space: after every event every node's pending and established index maps and relay index map are checked (non-zero, one owner per index, one index per tunnel, no index shared between a pending and an established tunnel, an index or remote-index entry disappears only with its owner). Evidence, not proof. Goroutine-level races of the allocation paths are the engine-B part (not in this check). Plus engine B node-level interleavings (scenario C29.gosched): after a tape-drawn single-threaded prelude on a fault-free pair (pending handshake with queued packets / reply in flight / crossing handshakes / established), the roles of each node (udp reader delivering the held datagrams — in half of the runs two reader routines per node working concurrently, the second possibly on a duplicate of a datagram the first is handling —, tun reader sending marker packets, handshake timer, connection-manager tick, a control call) run as real goroutines parked at every lock acquisition of HostMap / HandshakeManager / per-handshake / LightHouse / RemoteList / RelayState / conntrack mutexes (verifRWMutex, tag verif) and released one at a time from the tape; then the pair settles for 15 s. index space squeezed to 3-6 bits; the C29 invariant is evaluated on both nodes after the interleaved phase and after every event of the settle phase.",
 )
 
 engine_a("C09",
@@ -91,7 +91,7 @@ engine_a("C12",
     scenarios=["C12.mesh", "C12.gosched"],
     scenario_weight={"C12.gosched": 12},
     technique="deterministic whole-overlay simulation with transport duplication and an on-path attacker re-injecting exact copies of captured datagrams (direct and relayed); every delivery is observed (state digest before/after) and each datagram may be acted on at most once; plus a seeded goroutine scheduler (real goroutines parked at verif-tag yield points inside Decrypt/VerifyRelay, one released at a time from the tape) interleaving concurrent receivers of the same and neighbouring counters on one real tunnel",
-    rule="one run = 2-4 node overlay (static/lighthouse/relay) for 10-35 s (thorough: up to 120 s) with high duplication, 40-200 attacker replays (1-3 copies each, from the original or a foreign source address), rehandshakes and bursts; distinct = distinct abstract trace hash; non-trivial = replays were injected, >10 distinct datagrams were acted on and >5 workload packets delivered",
+    rule="one run = 2-4 node overlay (static/lighthouse/relay) for 10-35 s (thorough: up to 120 s) with high duplication, 40-200 attacker replays (1-3 copies each, from the original or a foreign source address), rehandshakes and bursts; in half of the runs datagrams reaching a node within a drawn window are handed over as one receive batch with one flush, and the tun device refuses the k-th write of a flush (tunerr); distinct = distinct abstract trace hash; non-trivial = replays were injected, >10 distinct datagrams were acted on and >5 workload packets delivered",
     level_text="Seeded search over delivery/replay histories: every delivery of an encrypted datagram is observed; a datagram (by content) may change the receiver's state, reach its tun or trigger a non-recv_error reply at most once per node, and every uniquely marked workload packet reaches the destination tun at most once. C12.gosched: 2-6 receiver goroutines submit genuine direct and relay-authenticated packets with overlapping counters (repeats, neighbours, window edge, jumps) to ConnectionState.Decrypt/VerifyRelay; every interleaving of the check / authenticate / update phases is a tape choice; a counter accepted twice (during or after the concurrent phase) or a still-in-window genuine counter never accepted is a violation. Evidence, not proof.",
 )
 
@@ -134,14 +134,14 @@ engine_a("C32",
     scenarios=["C32.pending", "C32.gosched"], scenario_weight={"C32.gosched": 2},
     technique="deterministic simulation of an initiator (real HandshakeManager, timer wheel, firewall, config reload) against a peer that is unreachable / reachable from the k-th attempt, on the simulated clock; wire-level retransmission schedule, pending-state cleanup, queue cap and queue release checked against the statement",
     rule="one run = try interval (50-333 ms) x retries (2-12) x reachability (never, or from attempt k) x 0-150 packets sent while pending (ports inside/outside the outbound rule) x optional outbound-rule reload while queued x optional node stall; distinct = distinct abstract trace hash; non-trivial = at least two transmissions of the first handshake message were observed",
-    level_text="Seeded search over retry/queue histories on the simulated clock: every retransmission must be byte-identical, the k-th gap must lie in [k*I,(k+2)*I] (upper bound waived only across an injected stall), at most `retries` transmissions (exactly `retries` when the peer never answers), afterwards the pending entry and its index are gone, the queue never exceeds 100, and after completion the peer's tun receives exactly the queued packets the outbound rules in force at completion allow, once each and in queue order. Evidence, not proof. Plus engine B node-level interleavings (scenario C32.gosched): after a tape-drawn single-threaded prelude on a fault-free pair (pending handshake with queued packets / reply in flight / crossing handshakes / established), the roles of each node (udp reader delivering the held datagrams, tun reader sending marker packets, handshake timer, connection-manager tick, a control call) run as real goroutines parked at every lock acquisition of HostMap / HandshakeManager / per-handshake / LightHouse / RemoteList / RelayState / conntrack mutexes (verifRWMutex, tag verif) and released one at a time from the tape; then the pair settles for 15 s. every marker packet must reach the destination tun at most once, and exactly once when the run contains no close, no handshake timeout and no still-pending handshake at the end (queued packets released exactly once on completion, none lost between the queue snapshot and completion).",
+    level_text="Seeded search over retry/queue histories on the simulated clock: every retransmission must be byte-identical, the k-th gap must lie in [k*I,(k+2)*I] (upper bound waived only across an injected stall), at most `retries` transmissions (exactly `retries` when the peer never answers), afterwards the pending entry and its index are gone, the queue never exceeds 100, and after completion the peer's tun receives exactly the queued packets the outbound rules in force at completion allow, once each and in queue order. Evidence, not proof. Plus engine B node-level interleavings (scenario C32.gosched): after a tape-drawn single-threaded prelude on a fault-free pair (pending handshake with queued packets / reply in flight / crossing handshakes / established), the roles of each node (udp reader delivering the held datagrams — in half of the runs two reader routines per node working concurrently, the second possibly on a duplicate of a datagram the first is handling —, tun reader sending marker packets, handshake timer, connection-manager tick, a control call) run as real goroutines parked at every lock acquisition of HostMap / HandshakeManager / per-handshake / LightHouse / RemoteList / RelayState / conntrack mutexes (verifRWMutex, tag verif) and released one at a time from the tape; then the pair settles for 15 s. every marker packet must reach the destination tun at most once, and exactly once when the run contains no close, no handshake timeout and no still-pending handshake at the end (queued packets released exactly once on completion, none lost between the queue snapshot and completion).",
     quick=tier(3000, 35),
 )
 
 HS_REAL = ["handshake.Machine (NewMachine/Initiate/ProcessPacket), handshake payload codec, flynn/noise IX, cert.CAPool.VerifyCertificate, cert.Recombine — all real"]
 HS_STUB = ["network between the machines (attacker-controlled message pool)", "HandshakeManager/hostmap (not involved; engine A covers them)", "wall clock (synctest bubble)", "crypto/rand (cryptotest seeded)"]
 HS_NOTE = "Trusted: the S-hs harness (identity generation, ground-truth trust table by identity kind, message pool) and the oracles. Machines are exercised exactly as HandshakeManager does (fresh responder machine per first message, one initiator machine per session)."
-HS_RULE = "one run = a world of 3-9 identities (2-3 honest, optionally untrusted-CA, expired, expiring, not-yet-valid, blocklisted, P-256 twin-blocklisted, key thief; v1/v2/both; Curve25519 or P-256; ChaChaPoly or AES-GCM) with 2-6 sessions and 40-120 (thorough: up to 500) attacker-scheduled deliveries of genuine, replayed, cross-session, truncated, bit-flipped, spliced, ephemeral-substituted and certificate-rewritten messages plus clock advances; distinct = distinct abstract trace hash; non-trivial = a session completed after rejected variants, or certificate-rewriting mutations were delivered in a run with a completion"
+HS_RULE = "one run = a world of 3-9 identities (2-3 honest, optionally untrusted-CA, expired, expiring, not-yet-valid, blocklisted, P-256 twin-blocklisted, key thief, impostor presenting a victim's certificate and public key without the private key (responder only), garbler with an undecodable certificate field; v1/v2/both; Curve25519 or P-256; ChaChaPoly or AES-GCM) with 2-6 sessions and 40-120 (thorough: up to 500) attacker-scheduled deliveries of genuine, replayed, cross-session, truncated, bit-flipped, spliced, ephemeral-substituted and certificate-rewritten messages plus clock advances; distinct = distinct abstract trace hash; non-trivial = a session completed after rejected variants, or certificate-rewriting mutations were delivered in a run with a completion"
 
 def hs_check(pid, **kw):
     kw.setdefault("pkg", "handshake")
@@ -175,7 +175,7 @@ check("C26",
     pkg="udp", engine="C-component", scenarios=["C26.kernel"],
     quick=tier(60000, 25), thorough=tier(2000000, 600, shrink_s=60),
     technique="deterministic fault-injecting simulation of the kernel behind the real batchWriter (sendFn seam): the simulated sendmmsg decodes the prepared mmsghdr/iovec/sockaddr/cmsg arrays and answers with seeded short counts and per-entry errors; oracle over the kernel's view",
-    rule="one run = one batch of 0-420 datagrams over 1-6 destinations (v4/v6 destinations on v4 or v6 sockets, sizes forming and breaking offload runs, empty and oversized datagrams), GSO on/off, max segments 4/16/63/127, and 0-12 kernel faults (short count at any entry, EIO on an offloaded entry => GSO disable and replay, EIO/ENOBUFS/EPERM/EMSGSIZE/ENETUNREACH/EINVAL on the first remaining entry); distinct = distinct abstract trace hash; non-trivial = at least one kernel fault fired on a batch of more than 3 datagrams",
+    rule="one run = one batch of 0-420 datagrams over 1-6 destinations (v4/v6 destinations on v4 or v6 sockets, destinations sharing an address with another port, the IPv4-mapped spelling of a destination, sizes forming and breaking offload runs, empty and oversized datagrams), GSO on/off, max segments 4/16/63/127, and 0-12 kernel faults (short count at any entry, EIO on an offloaded entry => GSO disable and replay, EIO/ENOBUFS/EPERM/EMSGSIZE/ENETUNREACH/EINVAL on the first remaining entry); distinct = distinct abstract trace hash; non-trivial = at least one kernel fault fired on a batch of more than 3 datagrams",
     level_text="Seeded search over batches x kernel fault sequences: the simulated kernel reads the entries exactly as sendmmsg(2) would (pointer-checked against the input buffers) and the oracle uses only that view: each input datagram accepted at most once, reported count = accepted datagrams, per-destination order preserved, every offloaded entry has one destination, equal segments except a shorter last, at most max segments and 65000 bytes, plain entries carry exactly one datagram, nothing unroutable reaches the kernel. Evidence, not proof.",
     level_note="Trusted: the simulated kernel's decoder and accounting. The real sendmmsg syscall, sockets and the EINTR/ENOBUFS retry loop inside batchWriter.sendmmsg are not executed (sendFn is the seam the code provides for tests).",
     real=["udp.batchWriter.WriteBatch, planRun, writeEntryCmsg, writeSockaddr, prepareWriteMessages"], stub=["sendmmsg(2) (simulated kernel behind batchWriter.sendFn)", "socket"],
@@ -183,8 +183,8 @@ check("C26",
 )
 
 FW_REAL = ["Firewall (Drop, conntrack, rule tables built through real config parsing), Interface.reloadFirewall via config reload, real HostInfo/CachedCertificate/CAPool from real handshakes, the real inbound/outbound packet paths for the C17 real-path events"]
-FW_STUB = ["peers' application traffic (firewall.Packet tuples drawn from the tape)", "routine-local conntrack cache ticker (the driver clears the cache map as the ticker would)", "UDP socket, tun, clock, randomness as in engine A"]
-FW_RULE = "one run = victim node with 1-2 overlay networks, optional unsafe network, default_local_cidr_any on/off, small (1-22 s) or default conntrack timeouts, optional routine-local cache, rules version optionally preset near its wrap, 2-4 peers (names, groups g1-g3, two CAs, multi-address incl. addresses outside the victim's networks, unsafe networks), 0-5 generated rules per direction, then 80-280 (thorough: up to 1800) steps of packets through Drop (new tuples, repeated tuples in both directions, tuples claimed by another peer), clock advances around each timeout, reloads (identical, remove a rule, add a rule, new rule set) and real-path events (byzantine peer sending crafted inner packets through its tunnel; the victim sending packets with arbitrary addresses); distinct = distinct abstract trace hash; non-trivial = packets passed both by rule and by tracking and something was refused as expired, stale or address-inauthentic"
+FW_STUB = ["peers' application traffic (firewall.Packet tuples drawn from the tape)", "none for the routine-local conntrack cache: the real ConntrackCacheTicker goroutine runs on the bubble clock", "UDP socket, tun, clock, randomness as in engine A"]
+FW_RULE = "one run = victim node with 1-2 overlay networks, optional unsafe network, default_local_cidr_any on/off, small (1-22 s) or default conntrack timeouts, optional routine-local cache, rules version optionally preset near its wrap, 2-4 peers (names, groups g1-g3, two CAs, multi-address incl. addresses outside the victim's networks, unsafe networks), 0-5 generated rules per direction (single ports, ranges, in one run of 16 also every-port ranges; sibling rules), then 80-280 (thorough: up to 1800) steps of packets through Drop (new tuples, repeated tuples in both directions, tuples claimed by another peer), clock advances around each timeout, reloads (identical, remove a rule, add a rule, new rule set, default_local_cidr_any flipped, re-issued certificate with other unsafe networks, only the conntrack timeouts changed) each followed by 0-3 packets of recent flows mostly in the reply direction, and real-path events (byzantine peer sending crafted inner packets through its tunnel; the victim sending packets with arbitrary addresses); distinct = distinct abstract trace hash; non-trivial = packets passed both by rule and by tracking and something was refused as expired, stale or address-inauthentic"
 
 def fw_check(pid, **kw):
     kw.setdefault("pkg", "nebula")
@@ -223,12 +223,12 @@ engine_a("C30",
 engine_a("C42",
     scenarios=["C42.reload"],
     technique="deterministic simulation of sequences of real config reloads (pki.cert/key/ca/blocklist combinations from the tape) on a node with connected peers; certificates and trust store in use compared after every reload with a reference of the statement, revoked peers checked against a bounded deadline on the simulated clock",
-    rule="one run = node starting with v1, v2 or both (Curve25519 or P-256, optionally two networks) and 1-2 connected peers under two CAs, then 1-15 reloads drawn from: re-issue, add/drop a certificate version, changed networks, other curve, mismatched key, expired, garbage, v1 for another key, new key pair; trust store unchanged / CA removed or restored / unreadable bundle / all-expired bundle / peer blocklisted or unblocked; distinct = distinct abstract trace hash; non-trivial = at least one certificate reload was accepted and one refused",
+    rule="one run = node starting with v1, v2 or both (Curve25519 or P-256, optionally two networks) and 1-2 connected peers under two CAs, then 1-15 reloads drawn from: re-issue, add/drop a certificate version (incl. a v1/v2 pair sharing a network that is not the primary one of both), changed networks, other curve, mismatched key, expired, garbage, v1 for another key, new key pair; trust store unchanged / CA removed or restored / unreadable bundle / all-expired bundle / peer blocklisted or unblocked; pki.disconnect_invalid false in a third of the runs (then only the blocklisted half of the disconnect rule is judged); distinct = distinct abstract trace hash; non-trivial = at least one certificate reload was accepted and one refused",
     level_text="Seeded search over reload histories: after every reload the curve and primary network never change, a version's networks never change while it is in use, v1 and v2 in use share one public key, the certificates in use are exactly the candidate's when the reference accepts it and exactly the previous ones when it refuses (changed networks/curve, v2 dropped without equal-network v1, unusable material), an unreadable or all-expired CA bundle leaves the previous trust store and blocklist, and a newly blocklisted or untrusted peer is gone from the hostmap within max(check interval, pending-deletion interval)+1.2 s. The case 'adding a v2 certificate with more networks than the v1 in use' is not generated (the statement leaves it open). Evidence, not proof.",
     quick=tier(3000, 35),
 )
 
-RELAY_RULE = "one run = 3-5 nodes: node 0 is lighthouse and relay, optionally the last node is a second relay, every endpoint pair lacks a direct underlay path (topology, not a fault), 60-160 marked workload packets between endpoints, transport faults, rehandshakes/closes/restarts/stalls on all legs, plus 20-80 byzantine events; distinct = distinct abstract trace hash; non-trivial = more than 5 relay forwards were judged and more than 3 workload packets were delivered end to end"
+RELAY_RULE = "one run = 3-5 nodes: node 0 is lighthouse and relay, optionally the last node is a second relay, every endpoint pair lacks a direct underlay path (topology, not a fault), 60-160 marked workload packets between endpoints, transport faults, rehandshakes/closes/restarts/stalls on all legs, plus 20-80 byzantine events (a relay replaying/modifying/re-wrapping inner packets; any node claiming to relay for a peer towards an endpoint); distinct = distinct abstract trace hash; non-trivial = more than 5 relay forwards were judged and more than 3 workload packets were delivered end to end"
 
 engine_a("C15",
     scenarios=["C15.relay"],
@@ -244,7 +244,7 @@ engine_a("C39",
     level_text="Seeded search over relay negotiation/forwarding histories: a node emits a forwarded relay datagram only while am_relay is on, only for a packet that arrived on a relay index owned by a live tunnel, only toward a node other than itself and the source, and only if it had received both an authenticated CreateRelayRequest and the matching CreateRelayResponse for that pair; relay records never change type, local index or peer address, never return to PeerRequested, and every relay index points at a live tunnel that owns it. A strict state-transition relation is deliberately not enforced (the code legitimately moves between Requested/Established/Disestablished in most directions). Evidence, not proof.",
 )
 
-LH_RULE = "one run = lighthouse (node 0) plus 2-4 peers discovering each other through it, multi-homed peers advertising public/private IPv4 and IPv6 underlay addresses, optional remote allow lists (global and per overlay range, static for the run), calculated remotes, preferred ranges changed by reload, roaming between a node's addresses, transport faults and tunnel churn, and 20-100 crafted lighthouse messages from a byzantine certified peer (all six message types, v1/v2 encodings, claimed owner = itself / the receiver / a third peer / nobody, 1-14 addresses incl. overlay-range and denied ones, relays, missing details); distinct = distinct abstract trace hash; non-trivial = >5 crafted messages delivered, >50 datagram destinations judged and at least one candidate list with >=3 addresses compared"
+LH_RULE = "one run = lighthouse (node 0) plus 2-4 peers discovering each other through it, multi-homed peers advertising public/private IPv4 and IPv6 underlay addresses, optional remote allow lists (global and per overlay range, static for the run; in half of the runs the lighthouse really relays and a list may deny the whole primary underlay range except the lighthouse, so that tunnels exist through the relay only), calculated remotes, preferred ranges changed by reload, roaming between a node's addresses, transport faults and tunnel churn, and 20-100 crafted lighthouse messages from a byzantine certified peer (all six message types, v1/v2 encodings, claimed owner = itself / the receiver / a third peer / nobody, 1-14 addresses incl. overlay-range and denied ones, IPv4-mapped IPv6 spellings, global/unique-local/link-local IPv6, relays, missing details); distinct = distinct abstract trace hash; non-trivial = >5 crafted messages delivered, >50 datagram destinations judged and at least one candidate list with >=3 addresses compared"
 
 engine_a("C35",
     scenarios=["C35.lh"],
@@ -268,7 +268,7 @@ engine_a("C37",
 engine_a("C44",
     scenarios=["C44.dns"],
     technique="deterministic whole-overlay simulation of a serve_dns lighthouse with peers joining through real (and failing) handshakes under faults; the real DNS handler is called with seeded queries at seeded points of the history and every answer is checked against the set of certificates whose handshake completed at that node",
-    rule="one run = lighthouse with serve_dns, 2-4 peers with mixed-case certificate names and IPv4/IPv6 overlay addresses, optional peer under an untrusted CA and optional expired peer reusing an honest name, transport faults, rehandshakes/closes/restarts, and 40-160 DNS queries (A, AAAA, TXT, MX, multi-question; names in random case, unknown names, address names) from loopback, the node's own overlay address, a peer's overlay address and a foreign address; distinct = distinct abstract trace hash; non-trivial = at least one A answer and one NXDOMAIN were produced",
+    rule="one run = lighthouse with serve_dns, 2-4 peers with mixed-case certificate names and IPv4/IPv6 overlay addresses, optional peer under an untrusted CA and optional expired peer reusing an honest name, transport faults, rehandshakes/closes/restarts (the lighthouse included), serve_dns switched off and on again by reloads in half of the runs, and 40-160 DNS queries (A, AAAA, TXT, MX, multi-question; names in random case, unknown names, address names) from loopback, the node's own overlay address, a peer's overlay address and a foreign address; distinct = distinct abstract trace hash; non-trivial = at least one A answer and one NXDOMAIN were produced",
     level_text="Seeded search over join/query histories: every A/AAAA answer must carry an address of that family taken from a certificate with that name (case-insensitive) whose handshake completed at the lighthouse (or its own), names that never passed verification are never answered, NXDOMAIN is returned only when no queried name is known, certificate details (TXT) go only to loopback or own-overlay clients and must be the certificate of the peer holding the queried address. The responder's socket is stubbed (handler called directly). Evidence, not proof.",
 )
 
@@ -276,7 +276,7 @@ engine_a("C01",
     engine="C-component",
     scenarios=["C01.trust"],
     technique="deterministic simulation of a node whose clock is stepped across the validity boundaries of generated CAs and leaves and whose trust bundle/blocklist change by real reloads; pool verdicts, real first-handshake acceptance and cached re-checks compared with an independent reference of the trust rule at every step",
-    rule="one run = 1-3 test CAs (v1/v2, Curve25519 or P-256, unconstrained or constrained in groups/networks/unsafe networks, long-lived / expiring / not yet valid / short window) and 2-8 leaves inside or outside each constraint and window (violating leaves carry a genuine CA signature, produced through the public signing API with a signer wrapper that hides the constraints), broken and P-256 twin signatures, then 20-44 steps drawn from: clock advance to the next validity boundary (-1 s, 0, +1 s) or a little, reload toggling a CA in the bundle / blocklisting a fingerprint or a twin fingerprint / clearing the blocklist, a full comparison over all leaves, a real first handshake message from a leaf; distinct = distinct abstract trace hash; non-trivial = the reference both accepted and rejected during the run",
+    rule="one run = 1-3 test CAs (v1/v2, Curve25519 or P-256, unconstrained or constrained in groups/networks/unsafe networks, long-lived / expiring / not yet valid / short window) and 2-8 leaves inside or outside each constraint and window (violating leaves carry a genuine CA signature, produced through the public signing API with a signer wrapper that hides the constraints), broken and P-256 twin signatures, then 20-44 steps drawn from: clock advance to the next validity boundary (-1 s, 0, +1 s; half of the time exactly on the second) or a little, reload toggling a CA in the bundle / blocklisting a fingerprint or a twin fingerprint / clearing the blocklist, a full comparison over all leaves, a real first handshake message from a leaf; distinct = distinct abstract trace hash; non-trivial = the reference both accepted and rejected during the run",
     level_text="Seeded search over (time, trust state) histories: VerifyCertificate on the node's live pool must equal the reference rule (blocklist incl. twin fingerprint, trusted issuer, same curve, issuer and leaf valid now, signature, leaf inside the issuer's window, groups, networks, unsafe networks) for every leaf at every comparison; a real first handshake message installs a tunnel iff the reference accepts at that instant; VerifyCachedCertificate must give the verdict of a full check for every certificate accepted earlier and every tunnel held. The full cross product of field values is only sampled as per-run configurations; no per-node clock skew. Evidence, not proof.",
     quick=tier(3000, 35),
 )
